@@ -18,13 +18,17 @@ void h_points_parse(void) {
     for (i = 0; i < 32; i++) if (in65[1 + 32 * idx + i] != 0) xzero = 0;
     sign = idx ? (in65[0] & 1) : ((in65[0] >> 1) & 1);
     __CPROVER_assert(ret == 0 || ret == 1, "C19 parse_one_of_points: returns 0 or 1");
-    if (in65[0] > 3) __CPROVER_assert(ret == 0 && g_pp_n == 0, "C19 parse_one_of_points: sign byte above 3 is rejected before any decoding");
-    if (in65[0] <= 3 && xzero && sign) __CPROVER_assert(ret == 0 && g_pp_n == 0, "C19 parse_one_of_points: infinity encoding with its sign bit set is rejected");
-    if (in65[0] <= 3 && xzero && !sign) __CPROVER_assert(ret == 1 && pt.infinity == 1 && g_pp_n == 0, "C19 parse_one_of_points: all-zero coordinate with clear sign bit is the point at infinity");
+    if (in65[0] > 3) __CPROVER_assert(ret == 0, "C19 parse_one_of_points: sign byte above 3 is rejected");
+    if (in65[0] <= 3 && xzero && sign) __CPROVER_assert(ret == 0, "C19 parse_one_of_points: infinity encoding with its sign bit set is rejected");
+    if (in65[0] <= 3 && xzero && !sign) __CPROVER_assert(ret == 1 && pt.infinity == 1, "C19 parse_one_of_points: all-zero coordinate with clear sign bit is the point at infinity");
     if (in65[0] <= 3 && !xzero) {
-        __CPROVER_assert(g_pp_n == 1 && g_pp_size0 == 33 && ret == g_pp_v0, "C19 parse_one_of_points: verdict is the compressed-point decoder's verdict on 33 bytes");
-        __CPROVER_assert(g_pp_b0 == (k == 0 ? (2 | sign) : in65[1 + 32 * idx + (k - 1)]), "C19 parse_one_of_points: decoder sees (2 | this point's sign bit) followed by this point's 32 coordinate bytes");
-        if (ret) __CPROVER_assert(pt.infinity == 0, "C19 parse_one_of_points: accepted non-zero coordinate is a finite point");
+        /* oracle usage only on the accepting path and by content; a negative verdict on these bytes must reject */
+        if (ret) {
+            __CPROVER_assert(g_pp_n >= 1 && g_pp_size0 == 33 && g_pp_v0 == 1, "C19 parse_one_of_points: a non-zero coordinate is accepted only on a positive verdict of the compressed-point decoder on 33 bytes");
+            __CPROVER_assert(g_pp_b0 == (k == 0 ? (2 | sign) : in65[1 + 32 * idx + (k - 1)]), "C19 parse_one_of_points: the decoded bytes are (2 | this point's sign bit) followed by this point's 32 coordinate bytes");
+            __CPROVER_assert(pt.infinity == 0, "C19 parse_one_of_points: accepted non-zero coordinate is a finite point");
+        }
+        if (g_pp_n >= 1 && g_pp_v0 == 0) __CPROVER_assert(ret == 0, "C19 parse_one_of_points: a negative decoder verdict rejects");
     }
     if (ret == 1 && !xzero && idx == 1 && sign) REACH("second point, odd, accepted");
     if (ret == 1 && !xzero && idx == 0 && sign) REACH("first point, odd, accepted");
@@ -55,7 +59,7 @@ void h_points_roundtrip(void) {
         __CPROVER_assert(ret == 1 && pt.infinity == 1 && g_pp_n == 0, "C19 points round trip: infinity serializes and parses back to infinity");
         REACH("round trip of infinity");
     } else if (!xzero) {
-        __CPROVER_assert(g_pp_n == 1 && g_pp_size0 == 33 && ret == g_pp_v0, "C19 points round trip: finite point reaches the compressed-point decoder");
+        __CPROVER_assert(g_pp_n >= 1 && g_pp_size0 == 33 && ret == g_pp_v0, "C19 points round trip: finite point reaches the compressed-point decoder");
         __CPROVER_assert(g_pp_b0 == exp33[k], "C19 points round trip: decoder sees exactly the point's own 33-byte compressed encoding");
         if (idx == 1 && (exp33[0] & 1)) REACH("round trip of an odd second point");
         if (idx == 0 && !(exp33[0] & 1)) REACH("round trip of an even first point");
